@@ -331,10 +331,10 @@ fn check(c: &Case, obs: &mut Obs) {
 
 fn shape_cases(tier: Tier) -> Vec<Case> {
     let mut v = vec![];
-    for d in 0..=tier.pick(64, 128) {
+    for d in 0..=tier.pick(64, 256) {
         v.push(Case::Circle { d });
     }
-    let e = tier.pick(32, 64);
+    let e = tier.pick(32, 96);
     for w in 0..=e {
         for h in 0..=e {
             v.push(Case::Ellipse { w, h });
@@ -405,7 +405,7 @@ fn angle_cases(tier: Tier) -> Vec<Case> {
 fn run_part(run: &mut Run) {
     let tier = run.tier;
     match run.part.as_str() {
-        "shapes" => run.sweep_vec("shapes", "circles d in 0..=64 (thorough 128), ellipses w,h in 0..=32 (64), rounded rectangles w,h in 0..=10 (14) x equal radii 0..=6^2 (9^2) and products of unequal radii on listed sizes", || shape_cases(tier), check),
+        "shapes" => run.sweep_vec("shapes", "circles d in 0..=64 (thorough 256), ellipses w,h in 0..=32 (96), rounded rectangles w,h in 0..=10 (14) x equal radii 0..=6^2 (9^2) and products of unequal radii on listed sizes", || shape_cases(tier), check),
         "angles" | "angles-fixed-point" => run.sweep_vec("angles", "sectors and arcs: diameters {1..=10,15,16,31,32,33,64,127,128} x start x sweep -370..=370 on degree grids (step 3/5-7/17-23 quick, 1/1-3/7-11 thorough) plus fractional angles in quarter degrees", || angle_cases(tier), check),
         p => panic!("unknown part {p}"),
     }
